@@ -236,7 +236,10 @@ func (h *Handler) SendMessage(ctx context.Context, s *xmpp.Session, r xml.TokenR
 	if err != nil {
 		return err
 	}
-	start := tok.(xml.StartElement)
+	start, ok := tok.(xml.StartElement)
+	if !ok {
+		return fmt.Errorf("expected a message start element, got %T", tok)
+	}
 	if start.Name.Local != "message" || (start.Name.Space != stanza.NSServer && start.Name.Space != stanza.NSClient) {
 		return fmt.Errorf("expected a message type, got %v", start.Name)
 	}
